@@ -292,11 +292,16 @@ func execKeep(pool []*item, c Call) (string, func() string) {
 		}
 		return fmt.Sprintf("%x %v", b, err)
 	}
-	_, _ = geomRes, bytesRes
-	return execInner(pool, c, geomRes, bytesRes), keep
+	textRes := func(b []byte, err error) string {
+		if err == nil {
+			keep = func() string { return fmt.Sprint(string(b), nil) }
+		}
+		return fmt.Sprint(string(b), err)
+	}
+	return execInner(pool, c, geomRes, bytesRes, textRes), keep
 }
 
-func execInner(pool []*item, c Call, geomRes func(geom.T, error) string, bytesRes func([]byte, error) string) string {
+func execInner(pool []*item, c Call, geomRes func(geom.T, error) string, bytesRes, textRes func([]byte, error) string) string {
 	a, b := pool[c.A%len(pool)], pool[c.B%len(pool)]
 	t := a.t
 	stride := t.Stride()
@@ -512,7 +517,7 @@ func execInner(pool []*item, c Call, geomRes func(geom.T, error) string, bytesRe
 			return "n/a"
 		}
 		bts, err := geojson.Marshal(t, geojson.EncodeGeometryWithMaxDecimalDigits(c.B%6))
-		return fmt.Sprint(string(bts), err)
+		return textRes(bts, err)
 	case "geojson.MarshalSharedOpts":
 		if a.g.Layout == 5 {
 			return "n/a"
@@ -522,13 +527,13 @@ func execInner(pool []*item, c Call, geomRes func(geom.T, error) string, bytesRe
 			opts = append(opts, sharedGeoJSONBBox)
 		}
 		bts, err := geojson.Marshal(t, opts...)
-		return fmt.Sprint(string(bts), err)
+		return textRes(bts, err)
 	case "geojson.MarshalSharedSlice":
 		if a.g.Layout == 5 || a.g.Empty() || a.g.IsCollection() || a.g.HasEmptyPart() {
 			return "n/a"
 		}
 		bts, err := geojson.Marshal(t, sharedGeoJSONSlices[c.B%2]...)
-		return fmt.Sprint(string(bts), err)
+		return textRes(bts, err)
 	case "wkt.MarshalSharedOpts":
 		s, err := wkt.Marshal(t, sharedWKTDigits[c.B%2])
 		return fmt.Sprint(s, err)
@@ -542,14 +547,14 @@ func execInner(pool []*item, c Call, geomRes func(geom.T, error) string, bytesRe
 			return "n/a"
 		}
 		bts, err := geojson.Marshal(t, geojson.EncodeGeometryWithBBox())
-		return fmt.Sprint(string(bts), err)
+		return textRes(bts, err)
 	case "geojson.Feature":
 		if a.g.Layout == 5 {
 			return "n/a"
 		}
 		f := &geojson.Feature{ID: "x", Geometry: t, Properties: map[string]interface{}{"k": 1.5, "a": []interface{}{"b", nil}}}
 		bts, err := json.Marshal(f)
-		return fmt.Sprint(string(bts), err)
+		return textRes(bts, err)
 	case "igc.Encode":
 		ls, ok := t.(*geom.LineString)
 		if !ok || stride < 4 {
